@@ -109,6 +109,11 @@ func peach(fm *Frame, opts peachOpt, f Callable, inputs Inputs) error {
 				atomic.StoreInt32(&broken, 1)
 				return
 			}
+			if atomic.LoadInt32(&broken) != 0 {
+				// A worker broke or failed while we were waiting for a slot.
+				workerSema.Release(1)
+				return
+			}
 		}
 		wg.Add(1)
 		go func() {
